@@ -89,7 +89,7 @@ PROPS = {
     'C04': {
         'engines': [{'name': 'mg', 'timeout_quick': 600, 'timeout_thorough': 7200}],
         'trusted_base': ['test merge (concatenation with separator) and dupsort callbacks and the user-defined source in ocaml/stubs.c'],
-        'assumptions': ['T04_merge_sources / T04_next_call cover the merging configuration (merge function set and never failing for the whole-iteration theorem; dupsort none); the no-merge-function / dupsort variant is validated by engine mg only',
+        'assumptions': ['T04_merge_sources / T04_next_call: merge function set (never failing for the whole-iteration theorem), no dupsort; T04n_*: no merge function and/or a dupsort function (dupsort_ok = total preorder per key where the dupsort ORDER is claimed; none needed for the permutation / key-order claims)',
                         'sources obey the iterator contract of C03 (ideal cursors in the model; real readers and a user-defined source in the engine)',
                         'fold ORDER among the values of one key is unspecified by the property: the specification check compares multisets of atoms; the model predicts the exact order and is compared exactly'],
         'explanation': 'Implementation vs model/Merger.v (array heap with the C tie-breaks, pending/cur_key bookkeeping) vs the specification (sorted union, each value folded exactly once, dupsort order, failure on failing merge) over source families of readers and of buffer-invalidating user sources.',
